@@ -98,6 +98,20 @@ def _limit_resources():
         pass
 
 
+def execute_case(mod, trace):
+    """mod.execute(trace); a reply nobody can interpret (driver.ServerGarbage) is a violation of the
+    property being checked, not a harness error."""
+    from .driver import ServerGarbage
+
+    try:
+        return mod.execute(trace)
+    except ServerGarbage as e:
+        res = CaseResult()
+        res.nontrivial = True
+        res.violations = [Violation(mod.ID, f"{mod.ID}.observe.garbage", str(e), trace, "garbage")]
+        return res
+
+
 def run_case_guarded(mod, trace, seconds=120):
     """Execute one case under a generous real-time guard (SIGALRM)."""
     import signal
@@ -108,7 +122,7 @@ def run_case_guarded(mod, trace, seconds=120):
     old = signal.signal(signal.SIGALRM, onalarm)
     signal.alarm(seconds)
     try:
-        return mod.execute(trace)
+        return execute_case(mod, trace)
     finally:
         signal.alarm(0)
         signal.signal(signal.SIGALRM, old)
@@ -233,7 +247,7 @@ def ddmin_steps(mod, trace, clause, sig, max_runs=150):
     t["steps"] = steps
     if hasattr(mod, "simplify"):
         try:
-            t = mod.simplify(t, lambda tt: any(v.clause == clause for v in mod.execute(tt).violations))
+            t = mod.simplify(t, lambda tt: any(v.clause == clause for v in execute_case(mod, tt).violations))
         except Exception:
             pass
     return t
@@ -294,7 +308,7 @@ def main(argv=None):
             path = os.path.join(rdir, fn)
             rj = json.load(open(path))
             try:
-                res = mod.execute(rj["trace"])
+                res = execute_case(mod, rj["trace"])
             except Exception:
                 traceback.print_exc()
                 print(f"HARNESS-ERROR: replay {path} crashed")
@@ -462,7 +476,7 @@ def replay_one(mod, prop, path):
     if not os.path.isabs(path):
         path = os.path.join(VERIF_DIR, path)
     rj = json.load(open(path))
-    res = mod.execute(rj["trace"])
+    res = execute_case(mod, rj["trace"])
     if isinstance(res.sample, list):
         for t in res.sample[-60:]:
             print("  " + json.dumps(t, default=str)[:230])
